@@ -136,6 +136,18 @@ class Ctx:
             obl.append({"name": "no-forbidden-vernacular", "status": "closed"})
         self.obligations += obl
         self.coqc_err = r.stderr[-2000:] if r.returncode != 0 else ""
+        if self.tier == "thorough" and os.environ.get("VERIF_NO_COQCHK") != "1":
+            # independent re-check of the compiled property file and everything it depends on; prints the axioms relied upon
+            mod = "Gocc." + fname[len("theories/"):-2].replace("/", ".")
+            try:
+                c = subprocess.run(["coqchk", "-silent", "-o", "-Q", "theories", "Gocc", mod], cwd=COQ, capture_output=True, text=True, timeout=3000)
+                out = (c.stdout + c.stderr)
+                ok = c.returncode == 0 and "Axioms:" in out and re.search(r"\* Axioms:\s*<none>", out) is not None
+                self.obligations.append({"name": "coqchk -o %s (independent checker; axioms: none)" % mod,
+                                         "status": "closed" if ok else ("failed: " + " ".join(out.split())[-400:])})
+                self.coqchk_report = out[-1500:]
+            except subprocess.TimeoutExpired:
+                self.notes.append("coqchk timed out after 50 min (not counted as an obligation)")
         return obl
 
     def add_obligation(self, name, ok, detail=""):
